@@ -84,6 +84,34 @@ def _json_default(o):
     return {"__repr__": type(o).__name__}
 
 
+class Hang(BaseException):
+    """raised by the per-run alarm inside repository code that does not come back"""
+
+
+def _on_alarm(signum, frame):
+    raise Hang()
+
+
+def _execute_guarded(prop, trace, rng):
+    """prop.execute under a wall-clock alarm (single-threaded engines only): an operation of the code
+    under test that does not terminate is a liveness violation, not a harness error."""
+    limit = getattr(prop, "RUN_DEADLINE_S", 12.0)
+    use_alarm = getattr(prop, "ENGINE", "") != "threadsim"
+    if use_alarm:
+        signal.signal(signal.SIGALRM, _on_alarm)
+        signal.setitimer(signal.ITIMER_REAL, limit)
+    try:
+        return prop.execute(trace, rng)
+    except Hang:
+        return {"status": VIOLATION, "oracle": "liveness", "klass": "operation-did-not-terminate",
+                "detail": f"the run did not finish within {limit}s of wall time (typical run: milliseconds); "
+                          f"last op index: {trace.get('_progress')}",
+                "digest": "hang", "stats": {}, "nontrivial": False}
+    finally:
+        if use_alarm:
+            signal.setitimer(signal.ITIMER_REAL, 0)
+
+
 class Violation(Exception):
     """Raised by oracles.  oracle: which oracle; klass: stable short class of
     the failure (part of the signature); detail: free text."""
@@ -191,7 +219,8 @@ def run_seed(prop, seed, tier, want_trace=False):
     trace["seed"] = seed
     # what is executed is exactly what a replay file can hold
     trace = json.loads(json.dumps(trace, default=_json_default))
-    res = prop.execute(trace, rng)
+    res = _execute_guarded(prop, trace, rng)
+    trace.pop("_progress", None)
     if res.get("status") != OK or want_trace:
         if "schedule" in res:
             trace["schedule"] = res.pop("schedule")
@@ -204,7 +233,8 @@ def run_seed(prop, seed, tier, want_trace=False):
 
 def replay_trace(prop, trace):
     """execute a recorded trace with the PRNG disconnected (inside a child)."""
-    res = prop.execute(trace, None)
+    res = _execute_guarded(prop, trace, None)
+    trace.pop("_progress", None)
     res.pop("schedule", None)
     return res
 
